@@ -10,9 +10,10 @@ CONSTANTS
   Sizes = {3}
   Pads = {0, 2}
   Props = {0}
-  CtlFroms = {4}
-  CtlSizes = {2}
-  CtlTypes = {2}
+  CtlFroms = {4, 6}
+  MemSizes = {2}
+  LockBits = {9, 12}
+  CtlTypes = {1, 2}
   TwoCtl = FALSE
   OldLens = {1}
 INVARIANT W_DoneLong
@@ -20,4 +21,5 @@ INVARIANT W_DoneCap
 INVARIANT W_Rejected
 INVARIANT W_Crash
 INVARIANT W_SkipInside
+INVARIANT W_OddLock
 CHECK_DEADLOCK FALSE
